@@ -1,6 +1,9 @@
 package rig
 
 import (
+	"bytes"
+	"encoding/base64"
+	"encoding/gob"
 	"encoding/json"
 	"fmt"
 	"hash/fnv"
@@ -129,6 +132,9 @@ type ReplayFile struct {
 	Clause   string          `json:"clause"`
 	Error    string          `json:"error"`
 	Case     json.RawMessage `json:"case"`
+	// CaseGob is the byte-exact form (base64 of encoding/gob); JSON replaces
+	// invalid UTF-8, which matters for hostile inputs. Preferred when present.
+	CaseGob string `json:"case_gob,omitempty"`
 }
 
 // SaveReplay overwrites $VERIF_REPLAY_OUT with the failing case.
@@ -138,11 +144,16 @@ func SaveReplay(property string, c any, err error) {
 		return
 	}
 	cb, _ := json.Marshal(c)
+	var gb bytes.Buffer
+	gobStr := ""
+	if err := gob.NewEncoder(&gb).Encode(c); err == nil {
+		gobStr = base64.StdEncoding.EncodeToString(gb.Bytes())
+	}
 	clause := "unknown"
 	if v, ok := err.(*Violation); ok {
 		clause = v.Clause
 	}
-	b, _ := json.MarshalIndent(ReplayFile{Property: property, Clause: clause, Error: err.Error(), Case: cb}, "", " ")
+	b, _ := json.MarshalIndent(ReplayFile{Property: property, Clause: clause, Error: strings.ToValidUTF8(err.Error(), "\uFFFD"), Case: cb, CaseGob: gobStr}, "", " ")
 	_ = os.WriteFile(path, b, 0o644)
 }
 
@@ -160,6 +171,13 @@ func LoadReplay(c any) (ok bool, err error) {
 	var f ReplayFile
 	if err := json.Unmarshal(b, &f); err != nil {
 		return true, err
+	}
+	if f.CaseGob != "" {
+		raw, err := base64.StdEncoding.DecodeString(f.CaseGob)
+		if err != nil {
+			return true, err
+		}
+		return true, gob.NewDecoder(bytes.NewReader(raw)).Decode(c)
 	}
 	return true, json.Unmarshal(f.Case, c)
 }
